@@ -221,8 +221,9 @@ PLAN["C05"] = other(
     "TextgridStateError / TimelessTextgridTierException), and crop, editTimestamps, insertSpace, appendTier, "
     "eraseRegion (no shrink; points both), insertEntry are each proved to return / leave a well-formed tier on every "
     "path (ensures valid, in-span, stripped, disjoint, sorted), raising only praatio errors. Bounded: random histories "
-    "of all 15 operations (length <= 12) incl. the operations not under contract (morph, interval dejitter, interval "
-    "shrink). union (both tier classes) and difference are proved to return a well-formed tier by carrying the class "
+    "of all 15 operations (length <= 12). eraseRegion with shrinking is proved to return a well-formed tier or raise "
+    "TextgridStateError / CollisionError (second contract on the function: R-HAVOC for the shift loop, R-FIND for the "
+    "re-joining loop, validating constructor). union (both tier classes) and difference are proved to return a well-formed tier by carrying the class "
     "invariant through their loops (rule R-INV); intersection and mergeLabels are proved to return a well-formed tier "
     "or raise TextgridStateError whatever their loops collect (rule R-HAVOC + the validating constructor); "
     "PointTier.dejitter, deleteEntry, TextgridTier.new and mergeTiers likewise preserve it.",
@@ -302,6 +303,10 @@ CANARIES = [
      "target": ITC + ".intersection",
      "old": "        retTier = self.new(newName, retEntryList)\n\n        return retTier\n\n    def mergeLabels(",
      "new": "        retTier = self.new(newName, retEntryList)\n        self.minTimestamp = retTier.minTimestamp\n\n        return retTier\n\n    def mergeLabels("},
+    {"name": "shrink-touches-receiver", "props": ["C07", "C05"], "file": IT, "target": ITC + ".eraseRegion#shrink",
+     "old": "            newMax = start + (newTier.maxTimestamp - end)\n",
+     "new": "            newMax = start + (newTier.maxTimestamp - end)\n            self.maxTimestamp = newMax\n",
+     "config": ["collisionMode=categorical,doShrink=True"]},
     {"name": "union-raw-append", "props": ["C10", "C05"], "file": "praatio/data_classes/textgrid_tier.py",
      "target": "praatio.data_classes.textgrid_tier.TextgridTier.union",
      "old": "        retTier.sort()\n\n        return retTier", "new": "        retTier._entries.reverse()\n\n        return retTier",
@@ -376,8 +381,11 @@ CANARIES = [
     {"name": "erase-truncate-right", "props": ["C07"], "file": IT, "target": ITC + ".eraseRegion",
      "old": "newEntry = Interval(end, matchList[-1].end, matchList[-1].label)", "new": "newEntry = Interval(end, matchList[0].end, matchList[-1].label)",
      "config": ["collisionMode=truncate,doShrink=False"]},
-    {"name": "perase-inclusive", "props": ["C07"], "file": PT, "target": PTC + ".eraseRegion",
-     "old": "                if point.time < start:", "new": "                if point.time <= start:",
+    # (an earlier canary changed `point.time < start` into `<=` here; that rewrite is equivalent - points at exactly
+    # `start` were deleted just before - and the engine now proves so, which made the canary "survive")
+    {"name": "perase-shift-origin", "props": ["C07"], "file": PT, "target": PTC + ".eraseRegion",
+     "old": "newEntries.append(Point(start + (point.time - end), point.label))",
+     "new": "newEntries.append(Point(point.time - end, point.label))",
      "config": ["collisionMode=truncate,doShrink=True"]},
     {"name": "index-byte-rounding", "props": ["C16", "C17", "C18"], "file": "praatio/audio.py",
      "target": "praatio.audio.Wav._getIndexAtTime",
